@@ -13,7 +13,7 @@ META = {
     "technique": "Coq proofs (induction over bitstrings / wire lists; exact rational arithmetic) for the discrete parts + vm_compute correspondence; per-instance numerical validation of every template against an independently computed target state",
     "design_ref": "DESIGN.md §3 C57",
     "text": "20 kernel-checked theorems (Props/C57.v), for all sizes: (a) BasisState/BasisEmbedding - the X gates emitted by the decomposition, run from |0..0>, leave exactly the requested bits (index sum b_i 2^(n-1-i)), and that is the basis state state_vector(wire_order) selects on any device register containing the wires; accepted inputs are exactly 0/1 sequences of the right length; int_to_binary is the big-endian expansion of k mod 2^width. (b) StatePrep/AmplitudeEmbedding pre-processing over Gaussian rationals with rational norm - padding is appended to length 2^n with original entries in place, then the whole vector is normalised to norm exactly 1; the accept/reject decision is |norm-1| <= atol+rtol as the code takes it; too long / wrong length rejected; sparse path. The models are evaluated inside Coq on generated inputs and compared with BasisState (decomposition wires, state_vector index), qp.math.int_to_binary and StatePrep/AmplitudeEmbedding parameters of the real implementation. VALIDATION (per instance, not proved): all 12 templates named in the property are run on default.qubit from |0..0> on random wire labels (1-4 target qubits, permuted device wire order, spectator wires) both as a device primitive (qnode + qp.state()) through op.decomposition() fully decomposed (qp.transforms.decompose) to {RX,RY,RZ,CNOT,GlobalPhase}, and through the decomposition rules registered for the graph-based system (enable_graph) to the same gate set; the resulting state is compared at 1e-7 with a target computed independently in the harness (Haar-random real/complex, Pythagorean-rational, sparse, signed, basis states; random MPS tensors contracted densely; QROM angles truncated to the number of precision wires as documented; cosine window formula), tensored with |0> on every auxiliary / work / precision wire.",
-    "note": "Trusted: Coq kernel; hand transcription of BasisState/_preprocess tied by correspondence only. The numerical angle computations (Mottonen/Multiplexer alpha angles and Gray-code transform, QROM angle truncation, MPS QR completion, SumOfSlaters / PartialUnary classical co-processing, Superposition permutation bookkeeping) are VALIDATED on generated instances, not proved. Equality is exact (incl. global phase) wherever the docstring shows/claims the exact state; a global phase is allowed only for the decompositions of StatePrep/AmplitudeEmbedding (documented 'up to a global phase') and for one-entry sparse states (coefficient phase dropped by design). Dynamic work-wire allocation (SumOfSlatersPrep / PartialUnaryStatePreparation without registers) is checked through the reduced density matrix of the target wires. Not covered: the identification-register branch of SumOfSlatersPrep (needs >= 7 entries on >= 6 wires, ~20 qubits); broadcasting (batched states); abstract/jax inputs; lightning.tensor's native MPSPrep; sparse StatePrep has no working decomposition in this checkout (MottonenStatePreparation on a csr matrix raises ImportError from autoray) - recorded as a note, only its device path is validated. Norm decisions are tested away from the tolerance boundary (float vs exact norm). States are compared at 1e-7 (not 1e-8): the implementation's 2*arcsin(sqrt(x)) angle formula loses sqrt(machine eps) ~ 1.5e-8 in amplitude when a branch carries all the weight.",
+    "note": "Trusted: Coq kernel; hand transcription of BasisState/_preprocess tied by correspondence only. The numerical angle computations (Mottonen/Multiplexer alpha angles and Gray-code transform, QROM angle truncation, MPS QR completion, SumOfSlaters / PartialUnary classical co-processing, Superposition order_states permutation bookkeeping, CosineWindow QFT circuit) are VALIDATED on generated instances, not proved. Equality is exact (incl. global phase) wherever the docstring shows/claims the exact state; a global phase is allowed only for the decompositions of StatePrep/AmplitudeEmbedding (documented 'up to a global phase') and for one-entry sparse states (coefficient phase dropped by design). Dynamic work-wire allocation (SumOfSlatersPrep / PartialUnaryStatePreparation without registers) is checked through the reduced density matrix of the target wires. States are compared at 1e-7 (not 1e-8): the implementation's 2*arcsin(sqrt(x)) angle formula loses sqrt(machine eps) ~ 1.5e-8 in amplitude when a branch carries all the weight. Norm decisions are tested away from the tolerance boundary (float vs exact norm). Not covered: the identification-register branch of SumOfSlatersPrep (needs >= 7 entries on >= 6 wires, ~20 qubits); broadcasting (batched states); abstract/jax inputs; lightning.tensor's native MPSPrep; preparation in the middle of a circuit. Three defects of the checkout are reported by this check under stable keys (one replay each): MPSPrep[right-canonicalize-early-exit] (right_canonicalize_mps inspects only the intermediate tensors before declaring the MPS canonical: two-site MPS are never canonicalised and a wrong state is prepared), MultiplexerStatePreparation[zero-first-rotation] (TypeError on default.qubit when the first qubit of the target is |0>: SelectPauliRot with all-zero angles and no controls decomposes to an empty Prod), StatePrep[sparse-input] (a csr state cannot be decomposed: MottonenStatePreparation on a csr matrix raises ImportError from autoray).",
     "assumptions": ["inputs of the pre-processing model have rational norm (otherwise the model answers 'outside')",
                     "wire labels are distinct (pennylane.wires.Wires enforces it)",
                     "concrete (non-traced) numpy inputs, no broadcasting"],
@@ -310,7 +310,7 @@ def gen_prep_cases(rng, tier):
         add({"t": "CosineWindow", "wires": labels(rng, n), "desc": f"n={n}"})
 
     # ---- seeded random cases
-    k = 1 if not big else 6
+    k = 1 if not big else 12
 
     def nq(hi=4):
         return rng.choice([1, 2, 2, 3, 3, 4][: (6 if hi >= 4 else 5 if hi == 3 else 3)])
